@@ -297,6 +297,9 @@ static int vf_model_check_one(int i, const char* when) {
     vf_violation("contents-changed", "%s: live block #%d %p (req %zu, usable %zu) changed at offset %ld (0x%02x)", when, i, b->p, b->req, b->usable, bad, b->p[bad]);
     return -1;
   }
+  /* what the allocator reports as usable for a live block never changes while the program leaves that block alone */
+  size_t u = mi_usable_size(b->p);
+  if (u != b->usable) { vf_violation("usable-changed", "%s: mi_usable_size of live block #%d %p (req %zu, alignment %zu) changed from %zu to %zu although the block was not touched", when, i, b->p, b->req, b->align, b->usable, u); return -1; }
   return 0;
 }
 static int vf_model_check_all(const char* when) {
